@@ -102,7 +102,7 @@ class Check:
     rule = ('15 message tags x 4 payloads x 4 envelopes; empty / text-only / pretty-printed message elements; pairs of '
             'message elements in both document orders; nested message elements; roElementAction with 9 operation values '
             'x 9 element_target shapes x 12 element_source shapes (blank and nested ID tags included); non-MOS XML; a completed running order; seeded random '
-            'documents; 12 malformed texts. Each document is classified from str, bytes and a file, in interpreters '
+            'documents; 12 malformed texts. Each document is classified from str, bytes and a file (UTF-8, and with a declaration in UTF-16 and ISO-8859-1 where representable), in interpreters '
             'started with default flags and with -W error. distinct by (kind, tag/operation, outcome)')
 
     def matches_known(self, k, v):
@@ -128,10 +128,10 @@ class Check:
             if io != mo:
                 what = 'classified as %r; the message element decides %r' % (io, mo)
             else:
-                for how in ('bytes', 'file'):
+                for how in [h for h in a if h != 'str']:
                     if a[how][:3] != a['str'][:3] or (a[how][0] == 'ok' and a[how][3] != a['str'][3]):
                         what = 'from %s: %r, from str: %r' % (how, a[how][:3], a['str'][:3])
-                for how in ('str', 'bytes', 'file'):
+                for how in a:
                     if b[how][:3] != a[how][:3]:
                         what = 'under -W error (%s): %r, default: %r' % (how, b[how][:3], a[how][:3])
             if what:
@@ -141,7 +141,7 @@ class Check:
         # malformed XML: MosInvalidXML from every source, under both configurations
         for flags, res in (([], run_sub([], 'classify', MALFORMED)), (['-W', 'error'], run_sub(['-W', 'error'], 'classify', MALFORMED))):
             for t, row in zip(MALFORMED, res):
-                for how in ('str', 'bytes', 'file'):
+                for how in row:
                     if row[how] != ['err', 'MosInvalidXML']:
                         vio.append({'what': 'malformed XML from %s %s: %r' % (how, flags, row[how]),
                                     'case': {'kind': 'classify', 'text': t, 'meta': {'kind': 'malformed'}},
@@ -154,12 +154,12 @@ class Check:
             dis.append({'case': {'kind': 'translator', 'stage': gt['stage'], 'detail': gt['detail']},
                         'impl': 'classification tables in mostypes.py', 'model': 'tag_class_map / ea_table / base_tag_name of Classify.v (work/GenTables.v does not check)',
                         'explained': bool(vio)})
-        n = len(docs) * 6 + len(MALFORMED) * 6
+        n = sum(len(a) + len(b) for a, b in zip(default, werror)) + len(MALFORMED) * 6
         samples = [{'text': d['text'], 'model': list(mo)} for d, mo in list(zip(docs, model))[::max(1, len(docs) // 3)][:3]]
         return {'evaluations': n, 'distinct': len(sigs), 'rule': self.rule, 'samples': samples, 'distribution': dist,
                 'disagreements': dis, 'violations': vio,
                 'extra': {'translated_tables': gt, 'documents': len(docs), 'malformed_texts': len(MALFORMED), 'configurations': ['default', '-W error'],
-                          'sources': ['str', 'bytes', 'file']}}
+                          'sources': ['str', 'bytes', 'file', 'bytes / file in UTF-16 and ISO-8859-1 with declaration']}}
 
     def replay(self, rep):
         case = rep.get('case') or {}
@@ -169,11 +169,11 @@ class Check:
         a = run_sub([], 'classify', [t])[0]
         b = run_sub(['-W', 'error'], 'classify', [t])[0]
         if case.get('meta', {}).get('kind') == 'malformed':
-            bad = any(r[h] != ['err', 'MosInvalidXML'] for r in (a, b) for h in ('str', 'bytes', 'file'))
+            bad = any(r[h] != ['err', 'MosInvalidXML'] for r in (a, b) for h in r)
             return {'violation': bad, 'default': a, 'werror': b}
         mo = engine.classify_cases([t])[0]
         io = tuple(a['str'][:3]) if a['str'][0] == 'ok' else ('err', a['str'][1])
-        bad = io != mo or any(a[h][:3] != a['str'][:3] for h in ('bytes', 'file')) or any(b[h][:3] != a[h][:3] for h in a)
+        bad = io != mo or any(a[h][:3] != a['str'][:3] for h in a) or any(b[h][:3] != a[h][:3] for h in a)
         return {'violation': bad, 'impl': list(io), 'model': list(mo), 'werror': {h: b[h][:3] for h in b}}
 
     def shrink(self, v):
